@@ -1224,6 +1224,68 @@ pub fn c04_macro_lookup() {
         None => check!(log.is_empty() && got == Ok(want), "a macro shape expands to its comprehension / presence test"),
     }
 }
+/// C17: structs, struct variants, maps and sequences whose members are the values a serializer could be tempted to treat
+/// specially (None, unit, zero, false, empty): every field / entry / element is kept, with its kind.
+pub fn c17_special_members() {
+    use cel_interpreter::objects::{Key, Map};
+    use serde::Serialize;
+    #[derive(Serialize)]
+    struct Unit;
+    #[derive(Serialize)]
+    struct St {
+        name: &'static str,
+        nick: Option<i64>,
+        unit: (),
+        marker: Unit,
+        zero: i64,
+        no: bool,
+        none_inside: Option<Option<u8>>,
+        empty: Vec<i64>,
+    }
+    #[derive(Serialize)]
+    enum En {
+        S { id: u64, payload: Option<i64> },
+    }
+    let case: u8 = any();
+    crate::sym::assume(case <= 3);
+    let smap = |pairs: Vec<(&str, Value)>| {
+        let mut m = std::collections::HashMap::new();
+        for (k, v) in pairs {
+            m.insert(Key::String(Arc::new(k.to_string())), v);
+        }
+        Value::Map(Map { map: Arc::new(m) })
+    };
+    let empty = || Value::List(Arc::new(vec![]));
+    // exact comparison: same keys, same kinds (numerically equal int / uint are NOT interchangeable here)
+    fn same(a: &Value, b: &Value) -> bool {
+        match (a, b) {
+            (Value::Map(x), Value::Map(y)) => x.map.len() == y.map.len() && x.map.iter().all(|(k, v)| y.map.get(k).map(|w| same(v, w)).unwrap_or(false)),
+            (Value::List(x), Value::List(y)) => x.len() == y.len() && x.iter().zip(y.iter()).all(|(v, w)| same(v, w)),
+            (Value::Int(x), Value::Int(y)) => x == y,
+            (Value::UInt(x), Value::UInt(y)) => x == y,
+            (Value::Bool(x), Value::Bool(y)) => x == y,
+            (Value::Null, Value::Null) => true,
+            (Value::String(x), Value::String(y)) => x == y,
+            _ => false,
+        }
+    }
+    let s = |t: &str| Value::String(Arc::new(t.to_string()));
+    let (got, want) = match case {
+        0 => (
+            cel_interpreter::to_value(St { name: "n", nick: None, unit: (), marker: Unit, zero: 0, no: false, none_inside: Some(None), empty: vec![] }),
+            smap(vec![("name", s("n")), ("nick", Value::Null), ("unit", Value::Null), ("marker", Value::Null), ("zero", Value::Int(0)), ("no", Value::Bool(false)), ("none_inside", Value::Null), ("empty", empty())]),
+        ),
+        1 => (cel_interpreter::to_value(En::S { id: 0, payload: None }), smap(vec![("S", smap(vec![("id", Value::UInt(0)), ("payload", Value::Null)]))])),
+        2 => (cel_interpreter::to_value(vec![None, Some(0i64), None]), Value::List(Arc::new(vec![Value::Null, Value::Int(0), Value::Null]))),
+        _ => {
+            let mut hm = std::collections::BTreeMap::new();
+            hm.insert("a", None::<i64>);
+            hm.insert("b", Some(0i64));
+            (cel_interpreter::to_value(hm), smap(vec![("a", Value::Null), ("b", Value::Int(0))]))
+        }
+    };
+    check!(matches!(&got, Ok(v) if same(v, &want)), "every field / entry / element is kept with its own kind, null and zero members included");
+}
 /// C04 visitor half: a run of k prefix operators applies the operator k times (an even run cancels).
 pub fn c04_prefix() {
     let (op, k, operand): (u8, u8, u8) = (any(), any(), any());
@@ -1783,6 +1845,7 @@ crate::replay_only! {
     #[kani::unwind(2)] c04_nested_prefix: "off", "OP(OP x) for the two prefix operators over a bool, an int and i64::MIN through Program::compile + execute, against two separate evaluations", "2 x 2 operators x 3 operands";
     #[kani::unwind(2)] c06_skipped_undeclared: "off", "short-circuit operators, the conditional and macros over operands that name undeclared functions / variables, through Program::compile + execute", "ten programs";
     #[kani::unwind(2)] c04_macro_lookup: "off", "calls named like the macros in macro and non-macro shapes, with host functions registered under the macro names, through Program::compile + execute", "sixteen call shapes";
+    #[kani::unwind(2)] c17_special_members: "off", "structs / struct variants / sequences / maps with None, unit, zero, false and empty members through to_value, exact key-set and kind comparison", "four shapes";
     #[kani::unwind(2)] c12_literal: "off", "a string / bytes literal token through Program::compile + execute against an independent decoder of the CEL literal syntax", "token text of up to 24 characters taken from the vector";
     #[kani::unwind(2)] c13_string_roundtrip: "off", "int(string(x)) / uint(string(x)) / double(string(x)) through Program::compile + execute", "payload bits from the vector";
     #[kani::unwind(2)] c13_literal: "off", "int / uint literals of every sign, radix and magnitude through Program::compile + execute", "text built from the vector";
